@@ -168,6 +168,19 @@ func solveAll(obs []*Obligation, dir string, timeoutS int, keep bool) {
 						os.Remove(f)
 					}
 				}
+				// the full query, briefly: the solvers' own quantifier handling often settles small obligations at once
+				if !done && len(o.Hyps) <= 400 {
+					f := writeQuery(dir, o.Name+".full0", full.Script(nil))
+					r := RunPortfolio(f, 5, "")
+					if r.Status == "unsat" {
+						r.Solver += "+full0"
+						o.Res = r
+						done = true
+					}
+					if !keep {
+						os.Remove(f)
+					}
+				}
 				// the two smallest stages of goal-directed trigger matching, briefly
 				dstages := []*Query(nil)
 				if !done && os.Getenv("GOVC_NODINST") == "" {
